@@ -6,6 +6,7 @@ import PV.Model.AllocCheck
 import PV.Model.Regions
 import PV.Model.Flatten
 import PV.Model.Strip
+import PV.Model.Leaf
 /-! Driver commands that execute programs: `run-ic10`, `run-src`, `equiv`. -/
 namespace PV.DriverRun
 open Lean PV.IC10 PV.IC10.Parse
@@ -601,5 +602,24 @@ def stripCompare (j : Json) : Except String Json := do
       match (s.zip qprog).zipIdx.find? (fun ((a, b), _) => !instrEq a b) with
       | some (_, i) => pure (Json.mkObj ([("verdict", Json.str "differ"), ("line", Json.num (JsonNumber.fromNat i))] ++ extra))
       | none => pure (Json.mkObj ([("verdict", Json.str "same")] ++ extra))
+
+/-! ### C06: leaf functions -/
+
+/-- per function body `[lo, hi)` of the REAL allocated code: does `checkLeaf` accept it (hypothesis of `leaf_returns` /
+    `call_leaf_returns`), and does it contain a call at all? -/
+def checkLeafCmd (j : Json) : Except String Json := do
+  let text ← j.getObjValAs? String "text"
+  let regions ← pairListOfJson (← j.getObjVal? "regions")
+  match parseProgram text with
+  | .error e => pure (Json.mkObj [("verdict", Json.str "parse-error"), ("detail", Json.str e)])
+  | .ok pp =>
+    let res := regions.map (fun (lo, hi) =>
+      let body := (pp.prog.drop lo).take (hi - lo)
+      let hasCall := body.any (fun i => i.kind == .jal)
+      let writesRa := body.any (fun i => i.dst == some (Special.ra : PReg))
+      let ok := PV.Leaf.checkLeaf FloatSem.sem pp.prog lo hi
+      Json.mkObj [("lo", Json.num (JsonNumber.fromNat lo)), ("hi", Json.num (JsonNumber.fromNat hi)), ("leaf_ok", Json.bool ok),
+        ("has_call", Json.bool hasCall), ("writes_ra", Json.bool writesRa)])
+    pure (Json.mkObj [("verdict", Json.str "done"), ("regions", Json.arr res.toArray)])
 
 end PV.DriverRun
